@@ -14,7 +14,7 @@ from vlib import Failure, finish, unhexs
 
 COQ_FILES = ["Bytes.v", "FrameModel.v", "FrameProofs.v", "TagModel.v", "TagProofs.v", "TypedModel.v", "TypedSpec.v", "TypedProofs.v"]
 
-STRS = ["x", "a b", " lead", "trail ", "é", "日本", "=", "a=b", "a: b", "OK", "ACK [5@0] {} x", "list_OK", "0", "tab\there", "\"q\"", "x" * 300,
+STRS = ["x", "", " ", "a b", " lead", "trail ", "é", "日本", "=", "a=b", "a: b", "OK", "ACK [5@0] {} x", "list_OK", "0", "tab\there", "\"q\"", "x" * 300,
         # carriage returns and other control characters are ordinary bytes of a value, wherever they stand (the line ends at the line feed)
         # values longer than the receive buffer and its first doubling (one line of 4097 .. 9000 bytes)
         "y" * 4097, "z" * 4096, "w" * 9000,
